@@ -205,6 +205,11 @@ def frame_for (src, dst, variant, size, uid):
   if variant == "frag_first":
     return F.eth(dst, src, 0x0800, F.ipv4(0x0a000001, 0x0a000002, 17,
                  F.udp(7, 9, payload, src=0x0a000001, dst=0x0a000002)[:8 + 32], flags=1, frag=0))
+  if variant == "ipother":
+    # IPv4 carrying something that is neither ICMP, TCP nor UDP (SCTP, ESP,
+    # OSPF, IGMP, GRE, an unassigned number): traffic like any other
+    return F.eth(dst, src, 0x0800, F.ipv4(0x0a000001, 0x0a000002,
+                 [132, 50, 89, 2, 47, 253][uid % 6], payload[:60]))
   if variant == "llc":
     return F.eth_8023(dst, src, F.llc(0x42, 0x42, 3, payload))
   if variant == "vlan_ip":
@@ -517,7 +522,7 @@ def gen_moves (rng, count):
     # (icmp, tcp and vlan_ip frames of one pair of stations are not all one
     #  conversation: type and code, addresses and ports change from frame to
     #  frame, and a flow cached for one of them is none for the next)
-    variant = rng.choice(["plain", "plain", "ip", "tcp", "arp", "icmp", "icmp", "vlan_ip"])
+    variant = rng.choice(["plain", "plain", "ip", "tcp", "arp", "icmp", "icmp", "vlan_ip", "ipother"])
     size = rng.choice([50, 100])
     ops = [[b, sw_, pb, rng.choice(["bcast", a]), variant, size, 0],
            [a, sw_, pa, b, variant, size, 0]]
@@ -566,7 +571,7 @@ def gen_random (rng, count, maxlen):
       elif r < 0.94: d = "near_stp"
       else: d = "lldpdst"
       variant = rng.choice(["plain", "plain", "ip", "vlan", "lldp", "groupsrc",
-                            "arp", "tcp", "icmp", "llc", "vlan_ip", "frag", "frag_first"]
+                            "arp", "tcp", "icmp", "llc", "vlan_ip", "frag", "frag_first", "ipother", "ipother"]
                            if rng.random() < 0.35 else ["plain"])
       size = rng.choice([42, 50, 100, 124, 200, 1400])
       # (10 s idle, 30 s hard, a table sweep every 2 s: gaps that end just
